@@ -250,7 +250,7 @@ func describeD(v ssa.Value, depth int) string {
 	if v == nil {
 		return "<nil>"
 	}
-	if depth > 6 {
+	if depth > 12 {
 		return "?deep"
 	}
 	switch x := v.(type) {
